@@ -91,6 +91,8 @@ func checkC20(w *World, r *Report) {
 	r.Rule("R20.2", 3, "AddModules: forward traversal, nil skipped, first error returned unwrapped")
 	r.Rule("R20.3", 5, "thin options: AddSingleton/AddScoped/AddTransient/Remove/RemoveKeyed return a closure whose body is exactly one call of the method of the same name on its collection parameter with the constructor's parameters forwarded unchanged, returning that call's error (or nil)")
 	r.Rule("R20.4", 1, "ModuleError unwraps to its Cause")
+	r.Rule("R20.6", 1, "applying a module cannot panic where the direct calls do not: no slice field of the collection is indexed with a position taken before the module ran")
+	r.Try(func() { ruleNoStaleIndex(w, r, "R20.6") })
 	r.Rule("R20.5", 3, "Remove through a module is Remove: every writer of a registry view keeps the three views in step and the descriptor list keeps registration order (no deferred compaction that a failing entry skips)")
 	r.Try(func() { reexport(w, r, "R20.5", func(sub *Report) { checkC17(w, sub) }, "R17.1", "R17.10") })
 
